@@ -827,6 +827,13 @@ func (*c07Prop) Run(cc Case) (v Verdict) {
 				v.Violation = false
 				return
 			}
+			if panicInLibrary() {
+				// a panic inside the library is not something this property judges; what the
+				// monitor saw up to that point stands
+				v.Discard = "library-panic"
+				v.Violation = false
+				return
+			}
 			panic(r)
 		}
 	}()
